@@ -148,6 +148,10 @@ func (cache *HevcCache) getPalyloadType(payload []byte) (vps, sps, pps, islice b
 		off := 2
 		// 循环读取被封装的NAL
 		for {
+			if off+3 > len(payload) {
+				// truncated aggregate: no room for a size field and a NAL header
+				return
+			}
 			// nal长度
 			nalSize := ((uint16(payload[off])) << 8) | uint16(payload[off+1])
 			if nalSize < 1 {
